@@ -62,20 +62,24 @@ theorem printLoop_ok (cap step perItem wrapMask W : Nat) (guard : Bool)
           exact ih _ _ _ hstop hnew (by omega)
     · rw [if_neg hlt]; exact ⟨o, rfl, hinv⟩
 
-theorem print_total (cap step perItem wrapMask alignMask W : Nat) (guard : Bool)
+theorem print_total (cap step perItem wrapMask alignMask bpa W : Nat) (guard : Bool)
     (hW : W < cap) (hpi : 0 < perItem) (hpW : perItem ≤ W) (hstep0 : 0 < step) (hg : guard = true ∨ step = 1)
     (hline : ∀ ptr, ptr ≤ W → ptr % perItem = 0 → (ptr &&& wrapMask = 0 ∨ ptr + perItem ≤ W))
-    (start stop : Nat) (hstop : stop < M32) :
-    ∃ r, print cap step perItem wrapMask alignMask guard start stop = .ok r := by
+    (start stop : Nat) :
+    ∃ r, print cap step perItem wrapMask alignMask bpa guard start stop = .ok r := by
   unfold print
   simp only []
   split
   · exact ⟨_, rfl⟩
-  · generalize hs : (if start ≥ stop then (start + 128) % M32 else stop) = stop'
+  · generalize hs : (if start ≥ stop then (start + 128) % M32
+      else if ((stop / bpa) * bpa + (bpa - 1)) % M32 ≠ 4294967295 then ((stop / bpa) * bpa + (bpa - 1)) % M32 + 1
+      else ((stop / bpa) * bpa + (bpa - 1)) % M32) = stop'
     have hs' : stop' < M32 := by
       rw [← hs]; split
       · exact Nat.mod_lt _ (by unfold M32; omega)
-      · exact hstop
+      · have : ((stop / bpa) * bpa + (bpa - 1)) % M32 < M32 := Nat.mod_lt _ (by unfold M32; omega)
+        unfold M32 at *
+        split <;> omega
     obtain ⟨o, ho, hinv⟩ := printLoop_ok cap step perItem wrapMask W guard hW hpi hpW hstep0 hg hline
       (stop' - start + 1) start stop' {} hs' ⟨Nat.zero_le _, Nat.zero_mod _⟩ (by omega)
     rw [ho]
@@ -88,16 +92,16 @@ theorem line16 : ∀ ptr, ptr ≤ 16 → ptr % 2 = 0 → (ptr &&& 15 = 0 ∨ ptr
 theorem line32 : ∀ ptr, ptr ≤ 8 → ptr % 2 = 0 → (ptr &&& 7 = 0 ∨ ptr + 2 ≤ 8) := by decide
 
 /-- `print <range>`: `chars[20]` in bounds, the loop ends, for every `(start, end)` -/
-theorem print8_total (start stop : Nat) (h : stop < M32) : ∃ r, print 20 1 1 15 0 false start stop = .ok r :=
-  print_total 20 1 1 15 0 16 false (by omega) (by omega) (by omega) (by omega) (Or.inr rfl) line8 start stop h
+theorem print8_total (bpa start stop : Nat) : ∃ r, print 20 1 1 15 0 bpa false start stop = .ok r :=
+  print_total 20 1 1 15 0 bpa 16 false (by omega) (by omega) (by omega) (by omega) (Or.inr rfl) line8 start stop
 
 /-- `print16 <range>` (with the wrap-around test of the fix) -/
-theorem print16_total (alignMask start stop : Nat) (h : stop < M32) : ∃ r, print 20 2 2 15 alignMask true start stop = .ok r :=
-  print_total 20 2 2 15 alignMask 16 true (by omega) (by omega) (by omega) (by omega) (Or.inl rfl) line16 start stop h
+theorem print16_total (alignMask bpa start stop : Nat) : ∃ r, print 20 2 2 15 alignMask bpa true start stop = .ok r :=
+  print_total 20 2 2 15 alignMask bpa 16 true (by omega) (by omega) (by omega) (by omega) (Or.inl rfl) line16 start stop
 
 /-- `print32 <range>` (with the wrap-around test of the fix) -/
-theorem print32_total (alignMask start stop : Nat) (h : stop < M32) : ∃ r, print 20 4 2 7 alignMask true start stop = .ok r :=
-  print_total 20 4 2 7 alignMask 8 true (by omega) (by omega) (by omega) (by omega) (Or.inl rfl) line32 start stop h
+theorem print32_total (alignMask bpa start stop : Nat) : ∃ r, print 20 4 2 7 alignMask bpa true start stop = .ok r :=
+  print_total 20 4 2 7 alignMask bpa 8 true (by omega) (by omega) (by omega) (by omega) (Or.inl rfl) line32 start stop
 
 /-! ### the page walk of `disasm(start, end)` -/
 
@@ -126,8 +130,8 @@ theorem walkLoop_ok (inUse : Nat → Bool) : ∀ (fuel n stop cs ce : Nat) (v : 
     · rw [if_neg hle]; exact ⟨_, rfl⟩
 
 /-- the page walk (with the fix) ends for every `(start, end)`, also in the page at `0xffff0000` -/
-theorem walk_total (inUse : Nat → Bool) (start0 start stop : Nat) (h : start < M32) :
-    ∃ r, walk inUse 65536 true start0 start stop = .ok r := by
+theorem walk_total (inUse : Nat → Bool) (start stop : Nat) (h : start < M32) :
+    ∃ r, walk inUse 65536 true start stop = .ok r := by
   unfold walk
   unfold M32 at *
   exact walkLoop_ok inUse _ _ _ _ _ _ _ h (by omega)
